@@ -232,8 +232,11 @@ class Run:
             "wall_s": round(wall, 2),
             "violations": int(nviol),
         }
-        os.makedirs(os.path.join(VERIF, "evidence"), exist_ok=True)
-        path = os.path.join(VERIF, "evidence", f"{self.pid}.json")
+        # extras (X..: specs of behaviour beyond the listed properties) keep their coverage reports apart from
+        # the per-property evidence files
+        sub = "evidence" if not self.pid.startswith("X") else os.path.join("extras", "evidence")
+        os.makedirs(os.path.join(VERIF, sub), exist_ok=True)
+        path = os.path.join(VERIF, sub, f"{self.pid}.json")
         tmp = path + ".tmp"
         with open(tmp, "w") as f:
             json.dump(ev, f, indent=1, default=str)
